@@ -422,6 +422,7 @@ func checkC06(c *Ctx) string {
 	checkC01Matrix(c, "C06.5 K9 all write actions of the checker refuse transactions that predate an exclusive index build")
 	// 6. persisted key composition of existing indexes
 	checkBestKeyStability(c, "C06.6 K2+K11 BestKey is computed only for indexes being added")
+	checkDropIndexesLockstep(c, "C06.9 K18 dropping indexes filters schema and overlays in lockstep")
 	// 7. a failing index mutation kills the transaction
 	checkMutationAbortWrapper(c, t, "C06.7 K4 index mutations run under recover→Abort→re-panic")
 	return "Static shape of index maintenance: every Overlay.Insert/Delete/Update in UpdateTran is ti.Indexes[i].m(keys[i],…) directly inside a loop over the schema's index list with the same " +
@@ -669,6 +670,9 @@ func checkC07(c *Ctx) string {
 	}
 	// 4. bulk builders
 	checkBuilderAddUsed(c, "C07.4 K8 bulk index builders refuse duplicates")
+	checkSpecFieldsSignAware(c, "C07.6 K4c index field numbers are sign-checked before they address a record")
+	checkKeysLoopCoverage(c, "C07.7 K18 per-index conflict tests cover the old and the new keys")
+	checkUniqueIndexEmptyFold(c, "C07.8 K14 uniqueIndexEmpty means all fields empty")
 	// 5. the checker's write set must be able to hold the empty key
 	checkBoundedSlotReads(c, "C07.5 K4c the checker's key sets compare a slot only inside their size (empty keys are recorded)")
 	return "Static shape of key enforcement: in every inserting method of UpdateTran the per-index loop runs dupOutputBlock (guarded only by 'key changed' in update, unconditional in Output except the " +
@@ -847,6 +851,9 @@ func checkC08(c *Ctx) string {
 	// ---- 3. every foreign-key scan registers its range (shared with C01.3)
 	checkSilentScans(c, t.db19A, "C08.3 K6 foreign-key scans register the range they looked at")
 	checkCascadeValueMapping(c, t, "C08.6 K11 cascaded key values are read by column position in the target table")
+	checkBackLinkLoops(c, "C08.7 K4c a back link is skipped only because of its mode", "C08.8 K4 the key for a back link is chosen per link")
+	checkBackLinkLiteralsComplete(c, "C08.9 K9 a back link is recorded with all of its fields")
+	checkBackLinkStoresIdentified(c, "C08.10 K4c an existing back link is changed only after it was identified")
 
 	// ---- 3/4. cascades recurse through Delete / update (so C06/C07/C44 apply to cascaded rows)
 	r4 := "C08.4 K13 cascades go through UpdateTran.Delete / update"
